@@ -150,6 +150,73 @@ theorem eagerVT_ext (v : Var) (σ : St) (h : (etV v).Nodup) : Ext (etV v) σ (ea
     exact Ext.seq (eagerPT_ext p σ (nodup_left h)) (eagerSs_ext ss _ (nodup_right h)) h
 
 
+/-! ### what is read of an `until` condition after it has been walked -/
+mutual
+def rtE : Expr → List Nat
+  | .paren _ e => rtE e
+  | .un _ _ e => rtE e
+  | .bin _ l _ r => rtE l ++ rtE r
+  | .func _ _ _ => []
+  | .call _ => []
+  | .tbl _ fs => rtFs fs
+  | .dots t => [t.idx]
+  | .var (.name t) => [t.idx]
+  | .var (.expr _ p _) => rtP p
+  | .nil _ => []
+  | .true_ _ => []
+  | .false_ _ => []
+  | .num _ => []
+  | .str _ _ _ => []
+  | .unsupported _ => []
+def rtP : Prefix → List Nat
+  | .name t => [t.idx]
+  | .expr e => rtE e
+def rtF : Field → List Nat
+  | .exprKey _ k v => rtE k ++ rtE v
+  | .nameKey _ _ v => rtE v
+  | .noKey v => rtE v
+  | .unsupported _ => []
+def rtFs : FieldList → List Nat
+  | .nil => []
+  | .cons f rest => rtF f ++ rtFs rest
+end
+
+mutual
+theorem restE_ext : (e : Expr) → (σ : St) → (rtE e).Nodup → Ext (rtE e) σ (restE σ e)
+  | .paren _ e, σ, h => by simp only [restE, rtE] at *; exact restE_ext e σ h
+  | .un _ _ e, σ, h => by simp only [restE, rtE] at *; exact restE_ext e σ h
+  | .bin _ l _ r, σ, h => by
+    simp only [restE, rtE] at *
+    exact Ext.seq (restE_ext l σ (nodup_left h)) (restE_ext r _ (nodup_right h)) h
+  | .func _ _ _, σ, _ => by simp only [restE, rtE]; exact Ext.refl _ _
+  | .call _, σ, _ => by simp only [restE, rtE]; exact Ext.refl _ _
+  | .tbl _ fs, σ, h => by simp only [restE, rtE] at *; exact restFields_ext fs σ h
+  | .dots t, σ, _ => by simp only [restE, rtE]; exact read_ext σ t true false
+  | .var (.name t), σ, _ => by simp only [restE, rtE]; exact read_ext σ t true false
+  | .var (.expr _ p _), σ, h => by simp only [restE, rtE] at *; exact restP_ext p σ h
+  | .nil _, σ, _ => by simp only [restE, rtE]; exact Ext.refl _ _
+  | .true_ _, σ, _ => by simp only [restE, rtE]; exact Ext.refl _ _
+  | .false_ _, σ, _ => by simp only [restE, rtE]; exact Ext.refl _ _
+  | .num _, σ, _ => by simp only [restE, rtE]; exact Ext.refl _ _
+  | .str _ _ _, σ, _ => by simp only [restE, rtE]; exact Ext.refl _ _
+  | .unsupported _, σ, _ => by simp only [restE, rtE]; exact Ext.refl _ _
+theorem restP_ext : (p : Prefix) → (σ : St) → (rtP p).Nodup → Ext (rtP p) σ (restP σ p)
+  | .name t, σ, _ => by simp only [restP, rtP]; exact read_ext σ t true false
+  | .expr e, σ, h => by simp only [restP, rtP] at *; exact restE_ext e σ h
+theorem restF_ext : (f : Field) → (σ : St) → (rtF f).Nodup → Ext (rtF f) σ (restF σ f)
+  | .exprKey _ k v, σ, h => by
+    simp only [restF, rtF] at *
+    exact Ext.seq (restE_ext k σ (nodup_left h)) (restE_ext v _ (nodup_right h)) h
+  | .nameKey _ _ v, σ, h => by simp only [restF, rtF] at *; exact restE_ext v σ h
+  | .noKey v, σ, h => by simp only [restF, rtF] at *; exact restE_ext v σ h
+  | .unsupported _, σ, _ => by simp only [restF, rtF]; exact Ext.refl _ _
+theorem restFields_ext : (fs : FieldList) → (σ : St) → (rtFs fs).Nodup → Ext (rtFs fs) σ (restFields σ fs)
+  | .nil, σ, _ => by simp only [restFields, rtFs]; exact Ext.refl _ _
+  | .cons f rest, σ, h => by
+    simp only [restFields, rtFs] at *
+    exact Ext.seq (restF_ext f σ (nodup_left h)) (restFields_ext rest _ (nodup_right h)) h
+end
+
 /-! ### the descent -/
 
 /-- the reference token(s) of one assignment target, as `assignTargets` reaches them -/
@@ -212,6 +279,34 @@ def dtV : Var → List Nat
 def dtVs : VarList → List Nat
   | .nil => []
   | .cons v rest => dtV v ++ dtVs rest
+/-- the walk of an `until` condition -/
+def ttE : Expr → List Nat
+  | .paren _ e => ttE e
+  | .un _ _ e => ttE e
+  | .bin _ l _ r => ttE l ++ ttE r
+  | .func _ _ body => dtBody body
+  | .call (.mk _ p ss) => etP p ++ (dtP p ++ stSs ss)
+  | .tbl _ fs => ttFs fs
+  | .var (.name _) => []
+  | .var (.expr _ p ss) => ttP p ++ stSs ss
+  | .nil _ => []
+  | .true_ _ => []
+  | .false_ _ => []
+  | .dots _ => []
+  | .num _ => []
+  | .str _ _ _ => []
+  | .unsupported _ => []
+def ttP : Prefix → List Nat
+  | .name _ => []
+  | .expr e => ttE e
+def ttF : Field → List Nat
+  | .exprKey _ k v => ttE k ++ ttE v
+  | .nameKey _ _ v => ttE v
+  | .noKey v => ttE v
+  | .unsupported _ => []
+def ttFs : FieldList → List Nat
+  | .nil => []
+  | .cons f rest => ttF f ++ ttFs rest
 /-- a call statement's suffixes: each is read, then entered -/
 def stSs : SuffixList → List Nat
   | .nil => []
@@ -242,7 +337,7 @@ def dtStmt : Stmt → List Nat
   | .call (.mk _ p ss) => etP p ++ (dtP p ++ stSs ss)
   | .do_ _ b => dtBlock b
   | .while_ _ c b => etE c ++ (dtE c ++ dtBlock b)
-  | .repeat_ _ b c => dtBlock b ++ (dtE c ++ etE c)
+  | .repeat_ _ b c => dtBlock b ++ (ttE c ++ rtE c)
   | .if_ _ c b elifs els => etE c ++ (dtE c ++ (dtBlock b ++ (dtElseifs elifs ++ dtOptBlock els)))
   | .numFor _ _ _ start stop step b =>
     (etE start ++ (etE stop ++ optE etE step)) ++ ((dtE start ++ (dtE stop ++ dtOE step)) ++ dtBlock b)
@@ -430,6 +525,45 @@ theorem stmtSs_ext : (ss : SuffixList) → (σ : St) → (stSs ss).Nodup → Ext
     have h1 := nodup_left h
     exact Ext.seq (Ext.seq (eagerS_ext s σ (nodup_left h1)) (descS_ext s _ (nodup_right h1)) h1)
       (stmtSs_ext rest _ (nodup_right h)) h
+theorem topE_ext : (e : Expr) → (σ : St) → (ttE e).Nodup → Ext (ttE e) σ (topE σ e)
+  | .paren _ e, σ, h => by simp only [topE, ttE] at *; exact topE_ext e σ h
+  | .un _ _ e, σ, h => by simp only [topE, ttE] at *; exact topE_ext e σ h
+  | .bin _ l _ r, σ, h => by
+    simp only [topE, ttE] at *
+    exact Ext.seq (topE_ext l σ (nodup_left h)) (topE_ext r _ (nodup_right h)) h
+  | .func _ _ body, σ, h => by simp only [topE, ttE] at *; exact body_ext body σ h
+  | .call (.mk _ p ss), σ, h => by
+    simp only [topE, ttE] at *
+    have h2 := nodup_right h
+    exact Ext.seq (eagerP_ext p σ (nodup_left h))
+      (Ext.seq (descP_ext p _ (nodup_left h2)) (stmtSs_ext ss _ (nodup_right h2)) h2) h
+  | .tbl _ fs, σ, h => by simp only [topE, ttE] at *; exact topFields_ext fs σ h
+  | .var (.name _), σ, _ => by simp only [topE, ttE]; exact Ext.refl _ _
+  | .var (.expr _ p ss), σ, h => by
+    simp only [topE, ttE] at *
+    exact Ext.seq (topP_ext p σ (nodup_left h)) (stmtSs_ext ss _ (nodup_right h)) h
+  | .nil _, σ, _ => by simp only [topE, ttE]; exact Ext.refl _ _
+  | .true_ _, σ, _ => by simp only [topE, ttE]; exact Ext.refl _ _
+  | .false_ _, σ, _ => by simp only [topE, ttE]; exact Ext.refl _ _
+  | .dots _, σ, _ => by simp only [topE, ttE]; exact Ext.refl _ _
+  | .num _, σ, _ => by simp only [topE, ttE]; exact Ext.refl _ _
+  | .str _ _ _, σ, _ => by simp only [topE, ttE]; exact Ext.refl _ _
+  | .unsupported _, σ, _ => by simp only [topE, ttE]; exact Ext.refl _ _
+theorem topP_ext : (p : Prefix) → (σ : St) → (ttP p).Nodup → Ext (ttP p) σ (topP σ p)
+  | .name _, σ, _ => by simp only [topP, ttP]; exact Ext.refl _ _
+  | .expr e, σ, h => by simp only [topP, ttP] at *; exact topE_ext e σ h
+theorem topF_ext : (f : Field) → (σ : St) → (ttF f).Nodup → Ext (ttF f) σ (topF σ f)
+  | .exprKey _ k v, σ, h => by
+    simp only [topF, ttF] at *
+    exact Ext.seq (topE_ext k σ (nodup_left h)) (topE_ext v _ (nodup_right h)) h
+  | .nameKey _ _ v, σ, h => by simp only [topF, ttF] at *; exact topE_ext v σ h
+  | .noKey v, σ, h => by simp only [topF, ttF] at *; exact topE_ext v σ h
+  | .unsupported _, σ, _ => by simp only [topF, ttF]; exact Ext.refl _ _
+theorem topFields_ext : (fs : FieldList) → (σ : St) → (ttFs fs).Nodup → Ext (ttFs fs) σ (topFields σ fs)
+  | .nil, σ, _ => by simp only [topFields, ttFs]; exact Ext.refl _ _
+  | .cons f rest, σ, h => by
+    simp only [topFields, ttFs] at *
+    exact Ext.seq (topF_ext f σ (nodup_left h)) (topFields_ext rest _ (nodup_right h)) h
 theorem body_ext : (body : FuncBody) → (σ : St) → (dtBody body).Nodup → Ext (dtBody body) σ (body_ σ body)
   | .mk sp params b, σ, h => by
     rw [body_eq]
@@ -507,7 +641,7 @@ theorem stmt_ext : (s : Stmt) → (σ : St) → (dtStmt s).Nodup → Ext (dtStmt
     simp only [stmt, dtStmt] at *
     have h2 := nodup_right h
     have a : Ext (dtBlock b) σ (block σ.open b) := Ext.left (block_ext b σ.open (nodup_left h)) (tokLog_open σ).symm
-    exact Ext.right (Ext.seq a (Ext.seq (descE_ext c _ (nodup_left h2)) (eagerE_ext c _ (nodup_right h2)) h2) h) (tokLog_close _)
+    exact Ext.right (Ext.seq a (Ext.seq (topE_ext c _ (nodup_left h2)) (restE_ext c _ (nodup_right h2)) h2) h) (tokLog_close _)
   | .if_ sp c b elifs els, σ, h => by
     rw [if_eq]
     simp only [dtStmt] at *
